@@ -111,19 +111,46 @@ def isBlankLine (line : Str) : Bool := (strip line).isEmpty
 
 /-! ### `_fix_closing_tag_spacing` -/
 
-def fixClosingAux : List Str → List Str → List Str
-  | [], acc => acc.reverse
-  | line :: rest, acc =>
-    if isClosingTag line then
+/-- `_tag_start_re = (?:\{%|\{#|\{\{|<!--)\s*(/?)` at the head of `s`:
+`(is a closing tag, rest after the match)`. -/
+def tagStartAt (s : Str) : Option (Bool × Str) :=
+  let k := if "{%".toList.isPrefixOf s || "{#".toList.isPrefixOf s || "{{".toList.isPrefixOf s then 2
+           else if "<!--".toList.isPrefixOf s then 4 else 0
+  if k == 0 then none
+  else
+    let rest := (s.drop k).dropWhile isPySpace
+    if rest.head? == some '/' then some (true, rest.drop 1) else some (false, rest)
+
+/-- sum over `_tag_start_re.finditer(text)` of +1 (opening) / −1 (closing); fuel = text length -/
+def tagDepthGo : Nat → Str → Int → Int
+  | 0, _, d => d
+  | n + 1, s, d =>
+    match s with
+    | [] => d
+    | c :: cs =>
+      match tagStartAt (c :: cs) with
+      | some (closing, rest) => tagDepthGo n rest (if closing then d - 1 else d + 1)
+      | none => tagDepthGo n cs d
+
+/-- `_has_unclosed_tag(lines)` (`prev` holds the lines in reverse order) -/
+def hasUnclosedTag (prev : List Str) : Bool :=
+  let text := joinWith ['\n'] prev.reverse
+  tagDepthGo text.length text 0 > 0
+
+/-- `prev`: the original lines before this one, reversed; `acc`: output lines, reversed. -/
+def fixClosingAux : List Str → List Str → List Str → List Str
+  | [], _, acc => acc.reverse
+  | line :: rest, prev, acc =>
+    if isClosingTag line && !hasUnclosedTag prev then
       let needBlank := match acc with
-        | prev :: _ => !isBlankLine prev && lineIsBlock prev
+        | p :: _ => !isBlankLine p && lineIsBlock p
         | [] => false
       let acc1 := if needBlank then [] :: acc else acc
-      fixClosingAux rest (lstrip line :: acc1)
-    else fixClosingAux rest (line :: acc)
+      fixClosingAux rest (line :: prev) (lstrip line :: acc1)
+    else fixClosingAux rest (line :: prev) (line :: acc)
 
 def fixClosingTagSpacing (text : Str) : Str :=
-  joinWith ['\n'] (fixClosingAux (pySplitNl text) [])
+  joinWith ['\n'] (fixClosingAux (pySplitNl text) [] [])
 
 /-! ### `_fix_multiline_opening_tag_with_closing` -/
 
